@@ -601,7 +601,8 @@ def read_topmatter(text: str | Iterator[str]) -> dict[str, Any] | None:
         top_matter.append(line.rstrip() + "\n")
     try:
         metadata = yaml.safe_load("".join(top_matter))
-    except (yaml.YAMLError, RecursionError) as err:
+    except Exception as err:
+        # not only yaml.YAMLError: the loader's constructors can also raise e.g. AttributeError / RecursionError
         raise TopmatterReadError("Malformed YAML") from err
     if not isinstance(metadata, dict):
         raise TopmatterReadError(f"YAML is not a dict: {type(metadata)}")
